@@ -13,7 +13,12 @@ EXPLANATION = ("L1 reply senders are owned only by the driver's two routing maps
 TRUSTED = ['dropping a tokio Sender wakes and fails its receiver', 'tokio select!/scheduler fairness']
 UNDECIDED = ['liveness under the scheduler', 'fault injection at every byte boundary (dynamic notion)']
 ASSUMPTIONS = []
-SHARED = [('C16', ('A2.follow-up-error-returned',), 'L8.paged-follow-up-failure-is-an-error')]
+SHARED = [('C16', ('A2.follow-up-error-returned',), 'L8.paged-follow-up-failure-is-an-error'),
+          # C04's clause "when the server ... sends an undecodable frame ... each operation or stream still waiting for a response returns an
+          # error (it never hangs)": L2 decides that a decode *error* ends the driver and drops every reply sender; what makes an undecodable
+          # frame an error rather than an everlasting request for more input is that the TLV parser never answers Incomplete for a frame
+          # whose announced octets have all arrived - C11's H3 family, decided on the parser's paths
+          ('C11', ('H3.',), 'L10.undecodable-frame-is-an-error-not-a-wait')]
 
 LEAKERS = ('core::mem::forget', 'core::mem::manually_drop::ManuallyDrop::<T>::new', 'alloc::boxed::Box::<T, A>::leak', 'alloc::boxed::Box::<T>::leak',
            'alloc::sync::Arc::<T, A>::into_raw', 'alloc::sync::Arc::<T>::into_raw', 'alloc::boxed::Box::<T, A>::into_raw', 'alloc::boxed::Box::<T>::into_raw',
